@@ -63,7 +63,13 @@ def make_cases(ctx, first):
         # it removes nothing of these histories); collections under the other policies are part of the other variants
         pol = dict() if variant in (0, 2) else rng.choice([dict(), dict(untagged=True), dict(grace_ms=-1), dict(grace_ms=-1), dict(dangling=True)])
         conf = mkconf(store="dir", withsubj=False, **pol)
+        if (i // 4) % 5 == 3:
+            conf["referrer"] = False          # (the referrers API switched off: the layout does not say so, the configuration does)
         w = gen.World(rng, conf, repos=REPOS, profile=PROFILE)
+        if (i // 4) % 3 == 1:
+            # the first request to a repository that does not exist yet is a read
+            for rp in rng.sample(REPOS, rng.randrange(1, len(REPOS) + 1)):
+                w.add(rng.choice([tag_list(rp), manifest_get(rp, "t1", head=True)]))
         marks = 0
         target = steps
         while len(w.steps) < target:
@@ -94,6 +100,25 @@ def make_cases(ctx, first):
             elif r < 0.55:
                 # a collection at any point (the generator also leaves blobs without a manifest and open sessions around)
                 w.add(gcgen.gc_step(rng.choice(REPOS)))
+            elif 0.70 <= r < 0.85 and variant == 1:
+                # content that has grown old is uploaded again through a session just before the only manifest naming it goes away
+                # and a collection runs: uploaded a moment ago, in whichever store
+                repo = rng.choice(REPOS)
+                cfg_, lay_ = b"{}", b"old-layer-%d" % len(w.steps)
+                w.contents.add(lay_)
+                w.ensure_blob(repo, cfg_)
+                w.ensure_blob(repo, lay_)
+                m_ = image_manifest(desc(MT_CFG, cfg_), [desc(MT_LAYER, lay_)], annotations={"old": str(len(w.steps))})
+                w.contents.add(m_)
+                w.add(manifest_put(repo, "oldimg", m_, ctype=MT_OCI_M))
+                w.add(gcgen.age_step(repo, "", 7200))
+                ks_ = w.add(upload_post(repo))
+                w.add(upload_put(repo, "$SID%d$" % ks_, None, dg("sha256", lay_), state_token(0), lay_))
+                w.add(manifest_delete(repo, "oldimg"))
+                w.add(manifest_delete(repo, dg("sha256", m_)))
+                w.add(gcgen.gc_step(repo))
+                w.add(blob_get(repo, dg("sha256", lay_)))
+                w.add(blob_get(repo, dg("sha256", cfg_)))
             elif r < 0.70 and variant in (0, 2):
                 marks += 1
                 if rng.random() < 0.4:
